@@ -50,15 +50,18 @@ def run(ctx):
     ctx.unit("atoms_in_universe", len(U))
 
     # ---- R2 pairwise: the order of two distinct atoms never depends on insertion order ----
-    s_key = fsite(ctx, "formulas._convert_to_hill_notation")
-    conv = I.global_name("formulas", "_convert_to_hill_notation")
+    s_key = fsite(ctx, "formulas._convert_to_hill_notation", "formulas.Formula.hill")
+
+    def conv(atoms):
+        """Hill order of the atoms of a mapping, through the public route (formula(dict).hill)"""
+        return struct(I.getattr(I.call(fm, [dict(atoms)], {}), "hill"))
     clashes = []
     npairs = 0
     for a, b in itertools.combinations(U, 2):
         npairs += 1
         try:
-            o1 = [p[1] for p in I.call(conv, [{a: sp.Integer(1), b: sp.Integer(1)}], {})]
-            o2 = [p[1] for p in I.call(conv, [{b: sp.Integer(1), a: sp.Integer(1)}], {})]
+            o1 = [p[1] for p in conv({a: sp.Integer(1), b: sp.Integer(1)})]
+            o2 = [p[1] for p in conv({b: sp.Integer(1), a: sp.Integer(1)})]
         except SymRaise as exc:
             ctx.fail("R2", "atoms of every kind can be ordered", f"ordering {ident(I, a)} and {ident(I, b)} raises {exc}", s_key)
             return
@@ -70,7 +73,7 @@ def run(ctx):
     ctx.unit("atom_pairs", npairs)
 
     # ---- R3 order ---------------------------------------------------------------------
-    order = [p[1] for p in I.call(conv, [{a: sp.Integer(1) for a in U}], {})]
+    order = [p[1] for p in conv({a: sp.Integer(1) for a in U})]
 
     def spec(a):
         sym, iso, ch = ident(I, a)
